@@ -1,7 +1,7 @@
 SPECIFICATION ASpec
 CONSTANTS
   Sym = {97, 10, 32, 9}
-  MaxLen = 5
+  MaxLen = 4
   MaxOps = 99
 VIEW AView
 INVARIANTS ATypeOK PosLaws ModelExplained SavedValid
